@@ -29,7 +29,7 @@ PROPS["C02"] = {
                  "tol": {"*": (1e-11, 0.0), "ifft": (1e-10, 0.0), "irfft": (1e-10, 0.0), "ifftg": (1e-9, 0.0), "irfftg": (1e-9, 0.0)}},
                 {"src": "c02.cpp", "cfg": "asan", "tiers": ["thorough"],
                  "tol": {"*": (1e-11, 0.0), "ifft": (1e-10, 0.0), "irfft": (1e-10, 0.0), "ifftg": (1e-9, 0.0), "irfftg": (1e-9, 0.0)}}],
-    "rule": "ifft: EVERY n in 1..2048 (quick 1..512) x {gauss, impulse, constant, tone, alternating, 1e+-100 dynamic range}, free function and IfftPlan objects (reused across calls), all samples against the "
+    "rule": "ifft: EVERY n in 1..2048 (quick 1..512) x {gauss, impulse, constant, tone, alternating, 1e+-100 dynamic range; ROUND 4: an impulse of amplitude DBL_MAX/64 at every length without a Bluestein leaf (finite spectrum, finite inverse: ifft(fft(x)) must reproduce it; lengths with a prime factor > 41 are counted, not judged -- C01's known finding; the same class as a real impulse through rfft / irfft in both input forms at even lengths where neither n nor n/2 has such a factor)}, free function and IfftPlan objects (reused across calls), all samples against the "
             "long-double inverse DFT, both compositions; + sampled n to 2^17 (primes, 2p, 4q, 2^k, odd); "
             "irfft: EVERY even n in 2..2048 (quick 2..512), both input forms, bins from rfft(x) and synthetic Hermitian bins (upper half of the n-form unrelated data), one-argument overload, plan reuse, "
             "every odd n in 1..2049 and n in {-3..0, 4097, 65537, 99999} rejected for four input sizes, wrong input sizes rejected; sampled even n to 2^17; "
